@@ -598,7 +598,7 @@ func r6ProducerBody(c *RuleCtx, fn *ssa.Function, props []string, name string, a
 			for ai, a := range cs.Common().Args {
 				if wrapsOut(a) {
 					addRole(callee.Name(), cs, true)
-					if sameValue(a, file) && depth < 2 && ai < len(callee.Params) && len(callee.Blocks) > 0 && isNamed(callee.Params[ai].Type(), "os", "File") {
+					if (sameValue(a, file) || sameValue(root(a), file)) && depth < 2 && ai < len(callee.Params) && len(callee.Blocks) > 0 && (isNamed(callee.Params[ai].Type(), "os", "File") || isWriterInterface(callee.Params[ai].Type())) {
 						// handed the file itself: a delegate, judged by the same discipline
 						if _, done := delegateSucc[cs]; !done {
 							delegateSucc[cs] = r6ProducerBody(c, callee, props, name+">"+callee.Name(), nil, callee.Params[ai], nil, nil, depth+1)
@@ -1688,6 +1688,11 @@ func r6Open(c *RuleCtx) {
 			continue
 		}
 		if baseAlloc(rcv) == segAlloc {
+			// a method that stores nothing into the segment loads nothing: it is a check (an optional
+			// validation of what was loaded), and skipping it leaves no segment half-built
+			if !storesIntoReceiver(c.p, callee, 0, map[*ssa.Function]bool{}) {
+				continue
+			}
 			loaders = append(loaders, loader{cs, 1 << uint(loadBase+len(loaders)), callee.Name()})
 		}
 	}
@@ -2675,4 +2680,90 @@ func shortCallee(c *ssa.Call) string {
 		return c.Call.Method.Name()
 	}
 	return "dynamic"
+}
+
+// storesIntoReceiver: the method (or a zap function it hands its receiver to) stores into a field of the
+// receiver or updates a map / slice element reached through it.
+func storesIntoReceiver(p *Program, f *ssa.Function, depth int, seen map[*ssa.Function]bool) bool {
+	if f == nil || len(f.Blocks) == 0 || len(f.Params) == 0 {
+		return true // unknown: assume it may
+	}
+	if seen[f] || depth > 4 {
+		return false
+	}
+	seen[f] = true
+	recv := f.Params[0]
+	found := false
+	eachInstr(f, func(_ *ssa.BasicBlock, in ssa.Instruction) {
+		if found {
+			return
+		}
+		switch x := in.(type) {
+		case *ssa.Store:
+			if reachedThrough(x.Addr, recv) {
+				found = true
+			}
+		case *ssa.MapUpdate:
+			if reachedThrough(x.Map, recv) {
+				found = true
+			}
+		case ssa.CallInstruction:
+			for i, a := range x.Common().Args {
+				if !reachedThrough(a, recv) || !isPointerLike(a.Type()) {
+					continue
+				}
+				g := staticCallee(x)
+				if g == nil || !p.InZap(g) {
+					// the segment itself handed to code we cannot see; bytes or tables read out of it and
+					// given to a library routine (a checksum, a decoder) are read there
+					if types.Identical(a.Type(), recv.Type()) {
+						found = true
+						return
+					}
+					continue
+				}
+				if i == 0 && storesIntoReceiver(p, g, depth+1, seen) {
+					found = true
+				} else if i != 0 {
+					found = true
+				}
+			}
+		}
+	})
+	return found
+}
+
+// reachedThrough: v is recv, or an address / value obtained from it through fields, elements and loads.
+func reachedThrough(v ssa.Value, recv ssa.Value) bool {
+	for i := 0; i < 16; i++ {
+		if v == recv {
+			return true
+		}
+		switch x := v.(type) {
+		case *ssa.FieldAddr:
+			v = x.X
+		case *ssa.IndexAddr:
+			v = x.X
+		case *ssa.UnOp:
+			if x.Op != token.MUL {
+				return false
+			}
+			v = x.X
+		case *ssa.Slice:
+			v = x.X
+		case *ssa.ChangeType:
+			v = x.X
+		default:
+			return false
+		}
+	}
+	return false
+}
+
+func isPointerLike(t types.Type) bool {
+	switch t.Underlying().(type) {
+	case *types.Pointer, *types.Map, *types.Slice, *types.Interface, *types.Chan:
+		return true
+	}
+	return false
 }
